@@ -217,6 +217,13 @@ func (cs fCase) request() string {
 }
 
 func (cs fCase) lisp() string {
+	if cs.Mode == "seq" {
+		var calls []string
+		for _, u := range cs.Units {
+			calls = append(calls, fCase{Ctrl: u.Ctrl, Args: u.Args}.lisp())
+		}
+		return "(list " + strings.Join(calls, " ") + ")"
+	}
 	parts := []string{"(format nil", fmt.Sprintf("%q", cs.Ctrl)}
 	for _, a := range cs.Args {
 		parts = append(parts, a.lisp(true))
@@ -366,6 +373,42 @@ func c15Impl(cs fCase) (res implResult) {
 			}(),
 			fileRes,
 		}
+	case "seq":
+		// a history: the calls one after the other in this process, each with its own arguments
+		res = implResult{Ok: true}
+		for k, u := range cs.Units {
+			sub := slip.NewScope()
+			var names []string
+			var uobjs []slip.Object
+			var ubefore []string
+			for i, a := range u.Args {
+				n := fmt.Sprintf("h%da%d", k, i)
+				o := a.object(sub)
+				sub.Let(slip.Symbol(n), o)
+				names = append(names, n)
+				uobjs = append(uobjs, o)
+				ubefore = append(ubefore, slip.ObjectString(o))
+			}
+			sub.Let(slip.Symbol("ctl"), slip.String(u.Ctrl))
+			o := lib.EvalString(sub, "(format nil ctl "+strings.Join(names, " ")+")")
+			switch {
+			case !o.Ok && o.GoFault:
+				res.Extra = append(res.Extra, "go-fault "+o.Class)
+			case !o.Ok:
+				res.Extra = append(res.Extra, "err "+o.Class)
+			default:
+				if t, isStr := o.Value.(slip.String); isStr {
+					res.Extra = append(res.Extra, "ok "+string(t))
+				} else {
+					res.Extra = append(res.Extra, "err not-a-string")
+				}
+			}
+			for i := range uobjs {
+				if slip.ObjectString(uobjs[i]) != ubefore[i] {
+					res.Mutated = true
+				}
+			}
+		}
 	default:
 		res = implResult{Class: "harness-mode"}
 	}
@@ -383,8 +426,42 @@ func c15Impl(cs fCase) (res implResult) {
 
 const c15MemCap = 3 << 30
 
-// per-case deadline: generous, the machine is shared; runaway output is stopped by the memory watchdog long before
-const c15Deadline = 150 * time.Second
+// A case is a runaway only by what it CONSUMES, never by the clock: the worker must have burnt
+// c15CPUBudget seconds of CPU time on the one case (a format call needs milliseconds), or have hit the
+// memory cap. Wall time only decides when to look: on a loaded or slow machine a starved worker that
+// has not used its CPU budget is simply waited for. A worker that uses no CPU at all for c15StallLimit
+// looks (blocked, stopped) is a machinery error (exit 2), not a verdict about slip.
+const (
+	c15CPUBudget  = 40.0 // CPU seconds (user + system) of the worker process since its last reply
+	c15LookEvery  = 5 * time.Second
+	c15StallLimit = 240 // looks without any CPU progress and without a reply (20 minutes of wall time)
+)
+
+// c15CPUSeconds: user + system CPU time of a process from /proc/<pid>/stat (clock ticks of 1/100 s);
+// ok = false when it cannot be read (the process is gone)
+func c15CPUSeconds(pid int) (float64, bool) {
+	b, err := os.ReadFile(fmt.Sprintf("/proc/%d/stat", pid))
+	if err != nil {
+		return 0, false
+	}
+	s := string(b)
+	k := strings.LastIndexByte(s, ')') // the command name may contain blanks and parentheses
+	if k < 0 {
+		return 0, false
+	}
+	f := strings.Fields(s[k+1:]) // f[0] = state (field 3); utime = field 14, stime = field 15
+	if len(f) < 13 {
+		return 0, false
+	}
+	var ut, st float64
+	if _, err := fmt.Sscan(f[11], &ut); err != nil {
+		return 0, false
+	}
+	if _, err := fmt.Sscan(f[12], &st); err != nil {
+		return 0, false
+	}
+	return (ut + st) / 100, true
+}
 
 func c15Worker() {
 	go func() { // memory watchdog: a runaway directive must not exhaust the machine
@@ -500,6 +577,8 @@ func c15RunChunk(cases []fCase, results []implResult, lo, hi int) {
 			stdin.Close()
 		}()
 		dead := false
+		cpuAtReply, _ := c15CPUSeconds(cmd.Process.Pid) // CPU time of the worker when it last replied
+		lastCPU, stalled := cpuAtReply, 0
 		for i < hi && !dead {
 			select {
 			case l, ok := <-lines:
@@ -515,10 +594,29 @@ func c15RunChunk(cases []fCase, results []implResult, lo, hi int) {
 					os.Exit(2)
 				}
 				i++
-			case <-time.After(c15Deadline):
-				results[i] = implResult{Hang: true, Class: "deadline"}
-				i++
-				dead = true
+				if cpu, ok := c15CPUSeconds(cmd.Process.Pid); ok {
+					cpuAtReply, lastCPU = cpu, cpu
+				}
+				stalled = 0
+			case <-time.After(c15LookEvery):
+				cpu, ok := c15CPUSeconds(cmd.Process.Pid)
+				switch {
+				case !ok:
+					// the process is gone; the closed pipe reports it on the next turn
+				case cpu-cpuAtReply >= c15CPUBudget:
+					results[i] = implResult{Hang: true, Class: "cpu-budget"}
+					i++
+					dead = true
+				case cpu > lastCPU:
+					lastCPU, stalled = cpu, 0 // working (or starved but progressing): wait
+				default:
+					stalled++
+					if stalled >= c15StallLimit {
+						fmt.Fprintf(os.Stderr, "worker %d makes no progress and uses no CPU on %s: machinery error\n", cmd.Process.Pid, cases[i].lisp())
+						_ = cmd.Process.Kill()
+						os.Exit(2)
+					}
+				}
 			}
 		}
 		_ = cmd.Process.Kill()
@@ -600,6 +698,33 @@ func c15CaseAspect(cs fCase, impl implResult, model string) string {
 	switch cs.Mode {
 	case "fmt":
 		return c15Aspect(cs, impl, model)
+	case "seq":
+		if impl.Hang {
+			return "hang"
+		}
+		if impl.Mutated {
+			return "argument-mutated"
+		}
+		replies := strings.Split(model, "\n")
+		if len(replies) != len(cs.Units) || len(impl.Extra) != len(cs.Units) {
+			fmt.Fprintf(os.Stderr, "harness bug: history of %d calls has %d model replies and %d observations\n", len(cs.Units), len(replies), len(impl.Extra))
+			os.Exit(2)
+		}
+		for k, u := range cs.Units {
+			one := implResult{}
+			switch {
+			case strings.HasPrefix(impl.Extra[k], "ok "):
+				one = implResult{Ok: true, Text: strings.TrimPrefix(impl.Extra[k], "ok ")}
+			case strings.HasPrefix(impl.Extra[k], "go-fault "):
+				one = implResult{GoFault: true, Class: strings.TrimPrefix(impl.Extra[k], "go-fault ")}
+			default:
+				one = implResult{Class: strings.TrimPrefix(impl.Extra[k], "err ")}
+			}
+			if a := c15Aspect(fCase{Mode: "fmt", Ctrl: u.Ctrl, Args: u.Args}, one, replies[k]); a != "" {
+				return fmt.Sprintf("call%d-%s", k+1, a)
+			}
+		}
+		return ""
 	case "dest":
 		if model != "" {
 			if a := c15Aspect(cs, impl, model); a != "" {
@@ -638,7 +763,21 @@ func c15Replay(c *lib.Ctx) {
 		fmt.Printf("replay %s\n", cs.lisp())
 		bad := false
 		model := ""
-		if c15Modelled(cs) {
+		if cs.Mode == "seq" {
+			var rq []string
+			for _, u := range cs.Units {
+				rq = append(rq, fCase{Ctrl: u.Ctrl, Args: u.Args}.request())
+			}
+			rs := c.Model(rq)
+			model = strings.Join(rs, "\n")
+			for k, r := range rs {
+				if mt, mok, merr := c15ModelText(r); mok {
+					fmt.Printf("  call %d expected (model): ok %q\n", k+1, c15Clip(mt))
+				} else {
+					fmt.Printf("  call %d expected (model): err %s\n", k+1, merr)
+				}
+			}
+		} else if c15Modelled(cs) {
 			model = c.Model([]string{cs.request()})[0]
 			if mt, mok, merr := c15ModelText(model); mok {
 				fmt.Printf("  expected (model): ok %q\n", c15Clip(mt))
@@ -649,9 +788,14 @@ func c15Replay(c *lib.Ctx) {
 		if cs.Mode == "oracle" {
 			fmt.Printf("  expected (oracle): ok %q\n", cs.Expect)
 		}
-		fmt.Printf("  observed        : %s %s\n", impl, impl.Msg)
+		if cs.Mode != "seq" {
+			fmt.Printf("  observed        : %s %s\n", impl, impl.Msg)
+		}
 		for i, e := range impl.Extra {
 			name := fmt.Sprint("related ", i)
+			if cs.Mode == "seq" {
+				name = fmt.Sprintf("call %d observed", i+1)
+			}
 			if cs.Mode == "dest" && i < len(c15DestNames) {
 				name = c15DestNames[i]
 			}
@@ -741,19 +885,30 @@ func runC15(c *lib.Ctx) {
 	comp := c15CompositeCases(c.Rng, c.Scale(8000, 1200000), avoid)
 	sweep = append(sweep, c15LongDestCases(c.Thorough())...)
 	comp = append(comp, c15CompositeDest(c.Rng, c.Scale(300, 4000), c.Thorough(), avoid)...)
-	cases := append(append([]fCase{}, sweep...), comp...)
+	// the histories are the first cases of the first worker: a fresh process
+	cases := append(append(append([]fCase{}, c15HistoryCases()...), sweep...), comp...)
 
 	var reqs []string
 	var reqIdx []int
 	for i, cs := range cases {
-		if c15Modelled(cs) {
+		if cs.Mode == "seq" {
+			for _, u := range cs.Units {
+				reqs = append(reqs, fCase{Ctrl: u.Ctrl, Args: u.Args}.request())
+				reqIdx = append(reqIdx, i)
+			}
+		} else if c15Modelled(cs) {
 			reqs = append(reqs, cs.request())
 			reqIdx = append(reqIdx, i)
 		}
 	}
 	replies := make([]string, len(cases))
+	seen := make([]bool, len(cases))
 	for k, r := range c.Model(reqs) {
-		replies[reqIdx[k]] = r
+		if seen[reqIdx[k]] {
+			replies[reqIdx[k]] += "\n" + r // a history: one reply per call
+		} else {
+			replies[reqIdx[k]], seen[reqIdx[k]] = r, true
+		}
 	}
 	nw := 6
 	if n := runtime.NumCPU() / 2; n < nw {
@@ -832,12 +987,26 @@ func runC15(c *lib.Ctx) {
 			continue
 		}
 		expected := replies[i]
-		if t, ok, _ := c15ModelText(orOkEmpty(replies[i])); ok && (cs.Mode == "fmt" || cs.Mode == "dest") {
-			expected = fmt.Sprintf("ok %q", c15Clip(t))
+		if cs.Mode == "fmt" || cs.Mode == "dest" {
+			if t, ok, _ := c15ModelText(orOkEmpty(replies[i])); ok {
+				expected = fmt.Sprintf("ok %q", c15Clip(t))
+			}
 		}
 		rec := map[string]any{"input": cs.lisp(), "cases": []fCase{cs}, "observed": impl.String(), "observed_related": impl.Extra,
 			"expected": expected, "expected_from": "model:fmt.run", "relies_on": []string{"SlipVerif.Theorems.C15"}}
-		if cs.Mode == "oracle" {
+		if cs.Mode == "seq" {
+			var exp []string
+			for _, r := range strings.Split(replies[i], "\n") {
+				if t, ok, merr := c15ModelText(r); ok {
+					exp = append(exp, fmt.Sprintf("ok %q", t))
+				} else {
+					exp = append(exp, "err "+merr)
+				}
+			}
+			rec["observed"] = strings.Join(impl.Extra, " ; ")
+			rec["expected"] = strings.Join(exp, " ; ")
+			rec["expected_from"] = "model:fmt.run for every call of the history (the calls are evaluated in this order in one fresh process)"
+		} else if cs.Mode == "oracle" {
 			rec["expected"] = fmt.Sprintf("ok %q", cs.Expect)
 			rec["expected_from"] = "independent Go oracle for English / Roman numerals"
 		} else if cs.Mode == "dest" {
@@ -914,7 +1083,7 @@ func runC15(c *lib.Ctx) {
 	c.Ev.Coverage["model_rejected_inputs"] = modelRejected
 	c.Ev.Coverage["sweep_cells_failing"] = len(cellOrder)
 	c.Ev.Coverage["disagreements_checked"] = len(cases) - agree
-	c.Ev.Coverage["rule"] = "cases = (control string, argument tuple); sweep = per directive x modifiers x parameter class x argument class cells (exhaustive, seed independent; ~@R/~:@R over all of 1..3999) + implementation-only relations (~A=princ, ~S=prin1, destinations); composite = seeded random compositions of up to 4 directives incl. nesting, avoiding constructs listed in findings; non-trivial = a directive has a parameter or modifier, or >= 2 directives; distinct by (control, arguments)"
+	c.Ev.Coverage["rule"] = "cases = (control string, argument tuple); sweep = per directive x modifiers x parameter class x argument class cells (exhaustive, seed independent; ~@R/~:@R over all of 1..3999) + cursor-boundary, no-argument-left, V/+ parameter and colinc-0 cells + nested conditionals (every inner kind in every clause of every outer kind, in- and out-of-range selectors) + histories (mode seq: several calls in one fresh process, each compared with the model, values unique to the history) + implementation-only relations (~A=princ, ~S=prin1, destinations); composite = seeded random compositions of up to 4 directives incl. nesting, avoiding constructs listed in findings; non-trivial = a directive has a parameter or modifier, or >= 2 directives; distinct by (control, arguments)"
 }
 
 // c15Shrink removes top-level units (with their arguments) while the case still disagrees.
